@@ -715,7 +715,10 @@ func checkC13FirstUse(raw json.RawMessage) (ev.Result, error) {
 		if strings.HasPrefix(results[i], "panic:") {
 			return ev.Result{}, fmt.Errorf("goroutine %d (%s) panicked: %s", i, op, results[i])
 		}
-		if op == "getinfo-name" || op == "unpack" || op == "action-text" || op == "flag-text" {
+		if op == "unpack" && results[i] != "ok" {
+			return ev.Result{}, fmt.Errorf("goroutine %d of %d parsing names while the library is used for the first time by the process: %s", i, len(c.Ops), results[i])
+		}
+		if op == "getinfo-name" || op == "action-text" || op == "flag-text" {
 			continue // result depends on the goroutine index
 		}
 		if prev, ok := seen[op]; ok && prev != results[i] {
@@ -728,4 +731,21 @@ func checkC13FirstUse(raw json.RawMessage) (ev.Result, error) {
 
 func TestC13FirstUse(t *testing.T) {
 	ev.Prop(t, "C13", "first-use", drawC13FirstUse, checkC13FirstUse)
+}
+
+// The same helper for C14: names parse to exactly the documented constants also when the parsers are used for the
+// first time by several goroutines at once (plans made of parsing only, or parsing next to other first uses).
+func TestC14FirstUse(t *testing.T) {
+	ev.Prop(t, "C14", "first-use", func(t *rapid.T) c13FirstUseCase {
+		n := rapid.IntRange(2, 16).Draw(t, "goroutines")
+		c := c13FirstUseCase{K: rapid.IntRange(1, 3).Draw(t, "k")}
+		for i := 0; i < n; i++ {
+			op := "unpack"
+			if rapid.IntRange(0, 4).Draw(t, "other") == 0 {
+				op = c13FirstOps[rapid.IntRange(0, len(c13FirstOps)-1).Draw(t, "op")]
+			}
+			c.Ops = append(c.Ops, op)
+		}
+		return c
+	}, checkC13FirstUse)
 }
